@@ -49,7 +49,7 @@ PROPS['C02'] = {
                 7: 'pooled-decode-differs-from-reference'},
     'trusted': ['hook tcp/coder/export_verif.go (build tag verif) exposing messageMaxLen read by gen'],
     'assumptions': ['Go slices modelled as lists with explicit bounds checks (Panic result)', 'uint32 header arithmetic modelled in Z with explicit mod 2^32', 'inputs are byte strings (values 0..255) shorter than 4 GiB'],
-    'level_text': 'Coq theorems (Properties/C02.v): the guarded option loop agrees with a grammar-shaped reference parser written from RFC 7252 3.1 on every byte string and every capacity (hence never panics, never exhausts its fuel); the datagram decoder = ref_udp, the stream header pre-parse = ref_tcp_header (Short / Invalid / fields, no uint32 wrap), the stream decoder = ref_tcp (only the declared frame is parsed; inputs < 4 GiB); accepted datagrams are well-formed (C01 preconditions), so they re-encode and decode to the same message (canonicalisation); the pooled capacity-retry loop terminates from any capacity >= 0 within 2+log2_up(|input|+2) decoder calls for both coders. Stream decode_wf/canonical are not proved (checked per case). Model tied to the Go code by differential evaluation: exhaustive short strings over a nibble-class alphabet, every first byte, truncations at every offset, mutations, random bytes through udp Decode, tcp DecodeHeader, tcp Decode, re-encode+decode, pooled decodes on fresh/recycled/capacity-0 messages under recover()+watchdog with the overwrite (no-alias) test.',
+    'level_text': 'Coq theorems (Properties/C02.v): the guarded option loop agrees with a grammar-shaped reference parser written from RFC 7252 3.1 on every byte string and every capacity (hence never panics, never exhausts its fuel); the datagram decoder = ref_udp, the stream header pre-parse = ref_tcp_header (Short / Invalid / fields, no uint32 wrap), the stream decoder = ref_tcp (only the declared frame is parsed; inputs < 4 GiB); accepted datagrams are well-formed (C01 preconditions), so they re-encode and decode to the same message (canonicalisation); the pooled capacity-retry loop terminates from any capacity >= 0 within 2+log2_up(|input|+2) decoder calls for both coders. Accepted stream frames up to messageMaxLen bytes are well-formed and canonicalise (_partial: see O-1 in notes/C02.md). Pre-repair behaviour (F7, F16, F17, F8) is refuted on the reported inputs (ModelPre.v). Model tied to the Go code by differential evaluation: exhaustive short strings over a nibble-class alphabet, every first byte, truncations at every offset, mutations, random bytes through udp Decode, tcp DecodeHeader, tcp Decode, re-encode+decode, pooled decodes on fresh/recycled/capacity-0 messages under recover()+watchdog with the overwrite (no-alias) test.',
     'level_note': 'Trusted: Coq kernel + vm_compute, the generator, the harness (incl. its watchdog and alias test). The reference adopts four leniencies of the library: illegal-length options dropped, option 0 dropped, marker+nothing = no payload, and the Code 0.00 emptiness rule of RFC 7252 section 3 is not enforced by the codec (see notes/C02.md). No-alias is by construction in the model; its tie is the harness test. Bounded time = bounded recursion depth; wall-clock only observed.',
     'explanation': 'Coq theorems (Properties/C02.v): the guarded option loop agrees with a grammar-shaped reference parser written from RFC 7252 3.1 on every byte string and every capacity (hence never panics, never exhausts its fuel); the datagram decoder = ref_udp, the stream header pre-parse = ref_tcp_header (Short / Invalid / fields, no uint32 wrap), the stream decoder = ref_tcp (only the declared frame is parsed; inputs < 4 GiB); accepted datagrams are well-formed (C01 preconditions), so they re-encode and decode to the same message (canonicalisation); the pooled capacity-retry loop terminates from any capac',
 }
